@@ -114,6 +114,20 @@ Theorem C14_raw_break_partial : forall nl nl' body, no_raw_breaks body = true ->
 Proof. exact convert_config_independent. Qed.
 Print Assumptions C14_raw_break_partial.
 
+(* a backslash-newline continuation inside a literal disappears under EVERY newline_sequence (before fix
+   of the lexer the line break was first replaced by the sequence and the escape was lost), while an
+   escaped backslash followed by a raw line break keeps both *)
+Theorem C14_line_continuation : forall nl,
+  convert nl [97; 92; 10; 98] = inl [97; 98] /\ convert nl [97; 92; 13; 10; 98] = inl [97; 98] /\
+  convert nl [92; 10] = inl [].
+Proof. intro nl. repeat split; reflexivity. Qed.
+Print Assumptions C14_line_continuation.
+
+Theorem C14_escaped_backslash_then_break :
+  map (fun nl => convert nl [97; 92; 92; 10; 98]) [[10]; [13; 10]; [13]]
+  = [inl [97; 92; 10; 98]; inl [97; 92; 13; 10; 98]; inl [97; 92; 13; 98]].
+Proof. vm_compute. reflexivity. Qed.
+
 Theorem C14_raw_break_default : normalize [10] [97; 13; 10; 98; 13; 99; 10; 100] = [97; 10; 98; 10; 99; 10; 100].
 Proof. reflexivity. Qed.
 
